@@ -60,6 +60,58 @@ def parse_raw(reply):
     return np.array(vals, dtype=float).reshape(r, c) if r * c else np.zeros((r, c))
 
 
+def lift_rows(spec, n):
+    """OWN row arithmetic (from the definition of the stages, not from the implementation): rows of one episode of n
+    samples after lifting. A delay stage keeps the samples that have all their delayed copies; the branches of a split
+    are cut to the shorter one; chains compose."""
+    k = spec['k']
+    if k == 'delay':
+        return n - max(spec['dx'], spec['du'])
+    if k == 'split':
+        a = b = n
+        for s in spec['a']:
+            a = lift_rows(s, a)
+        for s in spec['b']:
+            b = lift_rows(s, b)
+        return min(a, b)
+    if k == 'pipe':
+        for s in spec['ss']:
+            n = lift_rows(s, n)
+        return n
+    return n
+
+
+def retract_rows(spec, m):
+    """rows of one episode that the inverse rebuilds from m lifted rows: the inverse of a delay embedding also returns
+    the min(dx, du) earlier samples held in the delay coordinates of its first row (the state block alone would give
+    m + dx rows, the input block m + du; the rectangular result has the smaller count)"""
+    k = spec['k']
+    if k == 'delay':
+        return m + min(spec['dx'], spec['du'])
+    if k == 'split':
+        a = b = m
+        for s in reversed(spec['a']):
+            a = retract_rows(s, a)
+        for s in reversed(spec['b']):
+            b = retract_rows(s, b)
+        return min(a, b)
+    if k == 'pipe':
+        for s in reversed(spec['ss']):
+            m = retract_rows(s, m)
+        return m
+    return m
+
+
+def _core_on(est, core_f, Y, e, fe):
+    """transform / inverse_transform of the fitted object on the padded or stripped data (the reference of the property;
+    split / combine are the harness's own)"""
+    if e == fe:
+        return core_f(Y)
+    if fe:
+        return core_f(np.hstack((np.zeros((Y.shape[0], 1)), Y)))[:, 1:]
+    return st.ref_combine([(l, core_f(Ye)) for l, Ye in st.ref_split(Y, True)], True)
+
+
 def _oracle(case, est=None):
     """the property statement on the implementation (float or integer data)"""
     try:
@@ -104,9 +156,28 @@ def _oracle(case, est=None):
         want = np.hstack((L[:, :c], L[:, c + est.n_states_out_:]))
         if Li.shape != want.shape or not np.array_equal(Li, want):
             return 'lift_input is not the input block of lift (episode column kept iff the call has one)', dict(tag, helper='lift_input')
+        # every episode of n samples lifts to exactly the rows the stages leave (own row arithmetic)
+        spec = case['spec']
+        eX = st.episodes(X, e)
+        for name, M in (('lift', L), ('lift_state', Ls), ('lift_input', Li)):
+            eM = st.episodes(M, e)
+            for l, Oe in eX.items():
+                have = eM[l].shape[0] if l in eM else 0
+                if have != lift_rows(spec, Oe.shape[0]):
+                    return (f'{name}: episode {l} of {Oe.shape[0]} samples gives {have} lifted rows, the lifting functions leave '
+                            f'{lift_rows(spec, Oe.shape[0])}'), dict(tag, helper=name, clause='rows')
         # retract_* invert lift_* on the trailing samples of every episode
         Rs = est.retract_state(Ls, episode_feature=call)
         Ri = est.retract_input(Li, episode_feature=call)
+        # ... and are exactly the state / input block of inverse_transform on the lifted block padded with zeros
+        inv_s = _core_on(est, est.inverse_transform, np.hstack((Ls, np.zeros((Ls.shape[0], est.n_inputs_out_)))), e, fe)
+        inv_i = _core_on(est, est.inverse_transform,
+                         np.hstack((Li[:, :c], np.zeros((Li.shape[0], est.n_states_out_)), Li[:, c:])), e, fe)
+        for name, R, want in (('retract_state', Rs, inv_s[:, :c + nx]),
+                              ('retract_input', Ri, np.hstack((inv_i[:, :c], inv_i[:, c + nx:])))):
+            if R.shape != want.shape or not np.array_equal(R, want):
+                return (f'{name} is not the block of inverse_transform on the zero-padded lifted data: shape {R.shape}, '
+                        f'inverse_transform gives {want.shape}'), dict(tag, helper=name, clause='inverse_block')
         for name, R, orig in (('retract_state', Rs, Xs), ('retract_input', Ri, np.hstack((X[:, :c], X[:, c + nx:])))):
             eo, er = st.episodes(orig, e), st.episodes(R, e)
             for l, Oe in eo.items():
@@ -115,14 +186,285 @@ def _oracle(case, est=None):
                 r = er[l].shape[0]
                 if r > Oe.shape[0] or r == 0 or not np.allclose(er[l], Oe[Oe.shape[0] - r:], rtol=1e-12, atol=0):
                     return f'{name} does not invert its lift on the trailing samples of episode {l}', dict(tag, helper=name)
+                # row-count clause: HOW MANY trailing samples come back (own row arithmetic); with equal state and input
+                # delays everywhere that is the whole episode
+                n = Oe.shape[0]
+                want_r = retract_rows(spec, lift_rows(spec, n))
+                if r != want_r:
+                    return (f'{name}(lift) returns {r} of the {n} samples of episode {l}; the inverse of the lifting functions '
+                            f'rebuilds {want_r}' + (' (all of them: state and input delays are equal)' if want_r == n else '')), \
+                        dict(tag, helper=name, clause='rows')
     return None, None
 
 
 def oracle(case, est=None):
+    if est is None and case.get('mutations') is not None:
+        why, tags, _ = lifecycle(case)          # a replayed lifecycle case carries its history
+        return why, tags
     try:
         return _oracle(case, est)
     except Exception as ex:
         return f'a lift/retract helper raised {type(ex).__name__}: {ex}', {'helper': 'raised'}
+
+
+# ----------------------------------------------------------------------------- object lifecycle
+# A fitted composite (KoopmanPipeline / SplitPipeline) is a snapshot: fit() clones the constructor templates, transform and
+# inverse_transform run the fitted clones. Changing the UNFITTED templates afterwards, without refitting - nested
+# set_params, replacing a step by name, replacing a whole step list, changing a stage object the caller still holds and
+# re-using it in a second composite, changing the templates of a fitted nested composite - must leave every helper in
+# agreement with transform / inverse_transform of the fitted object, i.e. with what it returned before.
+
+LEAF_PARAMS = ('n_delays_state', 'n_delays_input', 'order', 'interaction_only')
+
+
+def _all_calls(est, case):
+    """argument and result of every helper x flag on the case's data (the arguments of retract* are lifted data)"""
+    out = []
+    for call in FLAGS:
+        for h in HELPERS:
+            A = inputs_for(est, case, h, call)
+            out.append((h, call, A, getattr(est, h)(A, episode_feature=call)))
+    return out
+
+
+def _new_value(rng, name, old):
+    if name.startswith('n_delays'):
+        if rng.random() < 0.75:
+            return int(old) + rng.randint(1, 4)          # the template now needs more samples than the fitted object
+        return rng.choice([v for v in range(0, 6) if v != int(old)])
+    if name == 'order':
+        return rng.choice([v for v in (1, 2, 3) if v != int(old)])
+    return not bool(old)
+
+
+def _leaf_keys(params, nested_only, names=LEAF_PARAMS):
+    return sorted(k for k in params if k.rsplit('__', 1)[-1] in names and ('__' in k or not nested_only))
+
+
+def _param_changes(rng, params, nested_only, names=LEAF_PARAMS):
+    keys = _leaf_keys(params, nested_only, names)
+    if not keys:
+        return None
+    dk = [k for k in keys if 'n_delays' in k]
+    k = rng.choice(dk) if dk and rng.random() < 0.7 else rng.choice(keys)
+    name = k.rsplit('__', 1)[-1]
+    out = {k: _new_value(rng, name, params[k])}
+    if name.startswith('n_delays') and rng.random() < 0.5:
+        sib = k[:len(k) - len(name)] + ('n_delays_input' if name == 'n_delays_state' else 'n_delays_state')
+        if sib in params:
+            out[sib] = rng.choice([int(out[k]), int(params[sib]) + rng.randint(1, 4)])
+    return out
+
+
+def _step_keys(params):
+    return sorted(k for k, v in params.items() if isinstance(v, pykoop.koopman_pipeline.KoopmanLiftingFn))
+
+
+def _new_stage(rng):
+    r = rng.random()
+    d = {'k': 'delay', 'dx': rng.randint(0, 5), 'du': rng.randint(0, 5)}
+    if rng.random() < 0.4:
+        d['du'] = d['dx']
+    if r < 0.55:
+        return d
+    if r < 0.7:
+        return {'k': 'poly', 'order': rng.choice([1, 2, 3]), 'io': rng.random() < 0.3}
+    if r < 0.85:
+        return {'k': 'split', 'a': [dict(d, du=0)], 'b': []}
+    return {'k': 'pipe', 'ss': [d]}
+
+
+def _refit_width(obj, n):
+    """crude upper bound of the lifted width of a template (delays first, then products), used ONLY to keep the second fit
+    of a re-used stage object small"""
+    import math
+    params = obj.get_params(deep=True)
+    w = n
+    for k, v in params.items():
+        if k.rsplit('__', 1)[-1] in ('n_delays_state', 'n_delays_input'):
+            w *= int(v) + 1
+    for k, v in params.items():
+        if k.rsplit('__', 1)[-1] == 'order':
+            w = math.comb(w + int(v), int(v))
+    for v in [obj] + list(params.values()):
+        if isinstance(v, pykoop.BilinearInputLiftingFn):
+            w = w * w
+    return w
+
+
+def _list_attrs(est):
+    return ['lifting_functions'] if isinstance(est, pykoop.KoopmanPipeline) else ['lifting_functions_state', 'lifting_functions_input']
+
+
+def gen_op(rng, est, spec, n_feat, allow_inner=True):
+    """one JSON-able change of the unfitted templates of the composite `est` (chosen on the live object)"""
+    params = est.get_params(deep=True)
+    steps = _step_keys(params)
+    kinds = ['list']
+    if _leaf_keys(params, True):
+        kinds += ['nested'] * 4
+    if steps:
+        kinds += ['replace', 'replace', 'shared', 'shared', 'shared']
+    inner = [i for i, (sp, _) in enumerate(pipes.walk(spec, est)) if i > 0 and sp['k'] in ('split', 'pipe')]
+    if allow_inner and inner:
+        kinds += ['inner']
+    k = rng.choice(kinds)
+    if k == 'nested':
+        return {'op': 'nested', 'params': _param_changes(rng, params, True)}
+    if k == 'replace':
+        return {'op': 'replace', 'key': rng.choice(steps), 'spec': _new_stage(rng)}
+    if k == 'list':
+        attr = rng.choice(_list_attrs(est))
+        have = [n for n, _ in (getattr(est, attr) or [])]
+        specs = [_new_stage(rng) for _ in range(rng.randint(1, 2))]
+        names, j = [], 0
+        while len(names) < len(specs):
+            if f'n{j}' not in have:
+                names.append(f'n{j}')
+            j += 1
+        return {'op': 'list', 'attr': attr, 'keep': rng.random() < 0.5, 'names': names, 'specs': specs}
+    if k == 'shared':
+        key = rng.choice(steps)
+        obj = params[key]
+        # the stage object is fitted again inside a second composite: only changes that keep that second fit small
+        ch = _param_changes(rng, obj.get_params(deep=True), False, ('n_delays_state', 'n_delays_input', 'interaction_only'))
+        if ch is None:
+            ch = _param_changes(rng, obj.get_params(deep=True), False)
+            reuse = None
+        else:
+            reuse = rng.choice(['pipe', 'pipe', 'split', None])
+        if ch is None:
+            return {'op': 'replace', 'key': key, 'spec': _new_stage(rng)}
+        if reuse:
+            import copy
+            probe = copy.deepcopy(obj).set_params(**ch)
+            if _refit_width(probe, n_feat) > 1500:
+                reuse = None
+        return {'op': 'shared', 'key': key, 'params': ch, 'reuse': reuse}
+    i = rng.choice(inner)
+    sp, sub = pipes.walk(spec, est)[i]
+    return {'op': 'inner', 'index': i, 'sub': gen_op(rng, sub, sp, n_feat, allow_inner=False)}
+
+
+def apply_op(est, op, case, spec):
+    k = op['op']
+    if k == 'nested':
+        est.set_params(**op['params'])
+    elif k == 'replace':
+        est.set_params(**{op['key']: pipes.build(op['spec'])})
+    elif k == 'list':
+        old = list(getattr(est, op['attr']) or []) if op['keep'] else []
+        est.set_params(**{op['attr']: old + [(n, pipes.build(sp)) for n, sp in zip(op['names'], op['specs'])]})
+    elif k == 'shared':
+        obj = est.get_params(deep=True)[op['key']]
+        obj.set_params(**op['params'])
+        if op['reuse']:
+            X = data_for(case, case['fit_ep'])
+            try:
+                # the second composite is somebody else's object; whether ITS fit succeeds is not this property's business
+                if op['reuse'] == 'pipe':
+                    pykoop.KoopmanPipeline(lifting_functions=[('z', obj)], regressor=pykoop.DataRegressor()).fit_transformers(
+                        X, n_inputs=case['nu'], episode_feature=case['fit_ep'])
+                else:
+                    pykoop.SplitPipeline(lifting_functions_state=[('z', obj)]).fit(
+                        X, n_inputs=case['nu'], episode_feature=case['fit_ep'])
+            except Exception:
+                pass
+    elif k == 'inner':
+        sp, sub = pipes.walk(spec, est)[op['index']]
+        apply_op(sub, op['sub'], case, sp)
+    else:
+        raise ValueError(k)
+
+
+def _op_kinds(ops):
+    return '+'.join(o['op'] if o['op'] != 'inner' else 'inner:' + o['sub']['op'] for o in ops)
+
+
+def lifecycle(case, rng=None, est=None, pre=None):
+    """fit (or take the fitted object and what its helpers returned), change the unfitted templates without refitting
+    (the stored history of the case, or a fresh one from rng), and state the property again on the same object.
+    Returns (why, tags, the case with its history)."""
+    if case['spec']['k'] not in ('split', 'pipe'):
+        # a single lifting function reads its own live parameters; used through a one-stage pipeline it is a template
+        case, est, pre = dict(case, spec={'k': 'pipe', 'ss': [case['spec']]}), None, None
+    try:
+        if est is None:
+            est = fit_est(case)
+            pre = None
+        if pre is None:
+            pre = _all_calls(est, case)
+        # the reference of the property on this object: transform / inverse_transform on the data in the fit-time layout
+        X0 = data_for(case, case['fit_ep'])
+        T0 = est.transform(X0)
+        I0 = est.inverse_transform(T0)
+    except Exception:
+        return None, None, dict(case, skipped=True)      # not a valid case before any change: the plain oracle's business
+    ops = case.get('mutations')
+    try:
+        if ops is None:
+            ops = []
+            for _ in range(rng.randint(1, 3)):
+                op = gen_op(rng, est, case['spec'], case['nx'] + case['nu'])
+                ops.append(op)
+                apply_op(est, op, case, case['spec'])
+        else:
+            for op in ops:
+                apply_op(est, op, case, case['spec'])
+    except Exception as ex:
+        # the change itself is rejected (set_params validates names): nothing was changed that the property talks about
+        return None, None, dict(case, mutations=ops, rejected=f'{type(ex).__name__}: {ex}'[:200])
+    case = dict(case, mutations=ops)
+    try:
+        case['template_loss'] = template_loss(est)
+    except Exception:
+        pass
+    hist = _op_kinds(ops)
+    for h, call, A, out in pre:
+        tags = {'helper': h, 'call': 'None' if call is None else call, 'fit_ep': case['fit_ep'], 'lifecycle': hist}
+        try:
+            now = getattr(est, h)(A, episode_feature=call)
+        except Exception as ex:
+            return (f'after a change of the unfitted templates ({hist}) without refit, {h}(episode_feature={call}) raised '
+                    f'{type(ex).__name__}: {ex} on data the same fitted object handled before'), tags, case
+        if now.shape != out.shape or not np.array_equal(now, out, equal_nan=True):
+            return (f'after a change of the unfitted templates ({hist}) without refit, {h}(episode_feature={call}) returns '
+                    f'shape {now.shape} / other values than before (shape {out.shape})'), tags, case
+    # the helpers agreed with transform / inverse_transform before the change (plain oracle) and are unchanged; the reference
+    # itself must be unchanged too, so that they still agree with transform / inverse_transform of the object as it is now
+    for name, f, arg, out in (('transform', est.transform, X0, T0), ('inverse_transform', est.inverse_transform, T0, I0)):
+        tags = {'helper': name, 'fit_ep': case['fit_ep'], 'lifecycle': hist}
+        try:
+            now = f(arg)
+        except Exception as ex:
+            return (f'after a change of the unfitted templates ({hist}) without refit, {name} raised {type(ex).__name__}: {ex} '
+                    f'on data the same fitted object handled before'), tags, case
+        if now.shape != out.shape or not np.array_equal(now, out, equal_nan=True):
+            return (f'after a change of the unfitted templates ({hist}) without refit, {name} of the fitted object returns '
+                    f'shape {now.shape} / other values than before (shape {out.shape}) while the helpers do not'), tags, case
+    return None, None, case
+
+
+def template_loss(obj):
+    """coverage only: samples an UNFITTED template tree would remove, by the harness's own arithmetic on its constructor
+    arguments (delay: max of the two delays; chains add; a split takes the larger branch)"""
+    if isinstance(obj, pykoop.DelayLiftingFn):
+        return max(int(obj.n_delays_state), int(obj.n_delays_input))
+    if isinstance(obj, pykoop.KoopmanPipeline):
+        return sum(template_loss(o) for _, o in (obj.lifting_functions or []))
+    if isinstance(obj, pykoop.SplitPipeline):
+        return max(sum(template_loss(o) for _, o in (obj.lifting_functions_state or [])),
+                   sum(template_loss(o) for _, o in (obj.lifting_functions_input or [])))
+    return 0
+
+
+def needs_more(lc):
+    """coverage only: after the history the templates ask for more samples than the shortest episode of the data has (while
+    the fitted clones, by construction of the data, do not) - the fitted object must not care"""
+    lens = {}
+    for r in lc['rows_lab']:
+        lens[r[0]] = lens.get(r[0], 0) + 1
+    return lc.get('template_loss', 0) + 1 > min(lens.values())
 
 
 def gen(ctx, opaque=False):
@@ -150,15 +492,33 @@ def population_search(ctx):
         if why:
             ctx.fail(why, c, tags)
             return
+        why, tags, lc = lifecycle(c, ctx.rng)
+        if why:
+            ctx.fail(why, lc, tags)
+            return
 
 
 def run(ctx):
     ctx.rule = ('random algebraic trees (poly/bilinear/const/delay/split/pipe, unequal delays) fitted with and '
                 'without an episode feature, on multi-episode tagged-integer data; all 2 (fit flag) x 3 (call flag) '
-                'x 6 helpers compared exactly with the Lean model of the helpers; non-trivial = at least one stage')
+                'x 6 helpers compared exactly with the Lean model of the helpers; non-trivial = at least one stage; '
+                'row-count clause: every episode of n samples lifts to the rows the stages leave and retract_state(lift_state) / '
+                'retract_input(lift_input) return exactly the rows the inverse rebuilds (the harness\'s own loss / gain arithmetic; '
+                'the whole episode when state and input delays are equal) and are bit-for-bit the state / input block of '
+                'inverse_transform on the zero-padded lifted block; object lifecycle: on every fitted composite (single stages '
+                'through a one-stage pipeline) 1-3 random changes of the UNFITTED constructor templates without refit - nested '
+                'set_params, step replacement by name, replacement / extension of a whole step list, a stage object changed '
+                'directly and re-used in a second composite that is then fitted, the templates of a fitted nested composite; '
+                'biased towards templates that then need more samples than an episode has - after which all 18 helper x flag '
+                'calls, transform and inverse_transform must return what the same object returned before')
     ctx.explanation = ('theorems C16_* about the executable model of the six helpers (flag logic, padding, slices); '
                        'correspondence: outputs of all helper x flag combinations on tagged data; oracle: the property '
-                       'statement evaluated on the implementation')
+                       'statement evaluated on the implementation, including the row counts of lift* and of retract* o lift* '
+                       '(own arithmetic: a delay removes max(dx, du) rows and its inverse restores min(dx, du); chains add, a split '
+                       'takes the shorter branch) and retract_state / retract_input as exact blocks of inverse_transform; lifecycle '
+                       'oracle: a fitted composite is a snapshot (fit clones its templates), so the helpers, which the model and the '
+                       'oracle tie to transform / inverse_transform at fit time, must be unchanged, bit for bit, by any later '
+                       'change of the templates that is not followed by a refit (the history is stored in the replay)')
     ctx.proof_obligations('Properties.C16', THEOREMS)
     drv = ctx.get_driver()
     n = ctx.n(60, 700)
@@ -171,6 +531,7 @@ def run(ctx):
             ctx.count('rejected:' + st.err_enum(e))
             continue
         toks, _ = pipes.tokens(c['spec'], est)
+        pre = []
         for call in FLAGS:
             for h in HELPERS:
                 try:
@@ -178,7 +539,10 @@ def run(ctx):
                     out = getattr(est, h)(A, episode_feature=call)
                 except Exception as ex:
                     ctx.mismatch(f'{h} raised {type(ex).__name__}: {ex}', c, None, None)
+                    pre = None
                     continue
+                if pre is not None:
+                    pre.append((h, call, A, out))
                 ce = 'n' if call is None else ('1' if call else '0')
                 lines.append(f"lift {h} {1 if c['fit_ep'] else 0} {ce} {c['nx']} {c['nu']} {toks} {raw_tokens(A)}")
                 meta.append((c, h, call, out))
@@ -188,6 +552,21 @@ def run(ctx):
         why, tags = oracle(c, est)
         if why:
             ctx.fail(why, c, tags)
+            continue
+        # object lifecycle: the templates change after fit, no refit; same object, same data (est is not used afterwards)
+        why, tags, lc = lifecycle(c, ctx.rng, est, pre)
+        if lc.get('rejected'):
+            ctx.count('lifecycle:change_rejected')
+        elif lc.get('skipped'):
+            ctx.count('lifecycle:skipped')
+        else:
+            ctx.count('lifecycle:cases')
+            for o in lc.get('mutations', []):
+                ctx.count('lifecycle:' + (o['op'] if o['op'] != 'inner' else 'inner:' + o['sub']['op']))
+            if needs_more(lc):
+                ctx.count('lifecycle:template_needs_more_samples_than_an_episode_has')
+        if why:
+            ctx.fail(why, lc, tags)
     replies = drv.ask(lines)
     bad = []
     for (c, h, call, out), rep in zip(meta, replies):
